@@ -147,7 +147,11 @@ class Emitter:
                     call = '%s(%s)' % (s.gname(fn_), ', '.join('a%d' % i for i in range(len(pcts))))
                     b.append('    case 0x%xULL: %s\n' % (fid, ('return %s;' % call) if rct != 'void' else (call + '; return;')))
             dummy = 'return;' if rct == 'void' else ('return (%s){0};' % rct if rct.startswith('struct') else 'return (%s)0;' % rct)
-            b.append('    default: vr_bad_icall(); %s\n  }\n}\n' % dummy)
+            if rct == 'char*' and tuple(pcts) == ('char*',) and not va:
+                # virtual calls on objects built by the models (std::exception::what()): see rt_common.c
+                b.append('    default: return vr_model_icall_pp(fn, a0);\n  }\n}\n')
+            else:
+                b.append('    default: vr_bad_icall(); %s\n  }\n}\n' % dummy)
             bodies.append(''.join(b))
         return ''.join(protos), ''.join(bodies)
 
